@@ -442,3 +442,6 @@ var (
 	inlinedNodes = map[ast.Node]bool{}
 	inlineFresh  = map[types.Object]bool{}
 )
+
+// calleeFn is callee under a name that local variables called `callee` do not shadow.
+func calleeFn(info *types.Info, call *ast.CallExpr) *types.Func { return callee(info, call) }
